@@ -142,6 +142,33 @@ def env_of(delivered: bytes):
     return 1, int(txt), dec, meta, cs
 
 
+def header_defect(data: bytes):
+    """why the header line of the stream `data` (the bytes before the first CRLF) cannot be answered with a response - read off the
+    response grammar <two ASCII digits>[<SPACE><META>]<CRLF>, independently of the implementation - or None when it has that shape.
+    Only the SHAPE of the status token is judged here (range, META and charset have their own clauses)."""
+    i = data.find(CRLF)
+    if i < 0:
+        return "has no CRLF"
+    line = data[:i]
+    tok = line.split(b" ", 1)[0]
+    if not (len(tok) == 2 and tok[0] in b"0123456789" and tok[1] in b"0123456789"):
+        return f"has the status token {tok[:24]!r}, which is not exactly two ASCII digits"
+    return None
+
+
+def malformed_header_verdict(who: str, res, data: bytes):
+    """a response (rather than an error) to a stream whose header line has no status"""
+    if res[0] != "resp":
+        return None
+    why = header_defect(data)
+    if why is None:
+        i = data.find(CRLF)
+        if int(data[:2]) != res[1]:
+            return ("status-mismatch", f"{who}status {res[1]} but the header line is {data[:min(i, 60)]!r}")
+        return None
+    return ("response-to-malformed-header", f"{who}response with status {res[1]} although the header line {why}; stream head {data[:60]!r}")
+
+
 # ----------------------------------------------------------------------------
 # running a protocol object on a fake transport
 # ----------------------------------------------------------------------------
@@ -297,6 +324,9 @@ TEXT_MIMES = ["text/gemini", "text/plain", "TEXT/Gemini", "text/html", "text/x-f
 BIN_MIMES = ["application/octet-stream", "image/png", "audio/ogg", "application/json", "texture/x", "x"]
 MAX_BODY = 10 * 1024 * 1024      # only used to size the generated streams; the oracle reads the constant from the code
 MAX_HDR = 1027
+# characters that Python treats as removable white space somewhere (int(), str.strip / split / isspace, regex \s and the "$" that also
+# matches before a final LF) - none of them is the SPACE of the response grammar
+WS_LIKE = ["\n", "\n", "\r", "\t", "\x0b", "\x0c", "\x1c", "\x1d", "\x1e", "\x1f", "\x85", "\xa0", "\u2028", "\u2029", "\u3000", "\u200b", "\x00"]
 
 
 def gen_header(rng: random.Random):
@@ -329,8 +359,14 @@ def gen_header(rng: random.Random):
             return f"{st}".encode(), "valid"
         return f"{st} ".encode() + meta.encode("utf-8", "surrogatepass"), "valid"
     if r < 0.72:
-        tok = rng.choice(["2x", "+20", " 20", "2_0", "020", "2", "200", "٢٠", "２０", "-5", "2\t0", "", "ab", "20\t", "1e1", "0x14"])
-        return tok.encode() + rng.choice([b" text/gemini", b"", b" x"]), "bad-status"
+        if rng.random() < 0.55:
+            tok = rng.choice(["2x", "+20", " 20", "2_0", "020", "2", "200", "٢٠", "２０", "-5", "2\t0", "", "ab", "20\t", "1e1", "0x14"])
+        else:
+            # two digits wrapped in / split by something a lenient reading (int(), str.strip(), str.isspace(), regex $ and \s) lets pass
+            ws = rng.choice(WS_LIKE)
+            d = rng.choice(["20", "20", "51", "10", "31", "44", "62"])
+            tok = rng.choice([d + ws, d + ws, d + ws, ws + d, d[0] + ws + d[1], d + ws + ws, ws + d + ws])
+        return tok.encode("utf-8", "surrogatepass") + rng.choice([b" text/gemini", b"", b" x", b" text/plain; charset=utf-8"]), "bad-status"
     if r < 0.80:
         return rng.choice([b"00", b"09", b"70", b"99", b"05"]) + rng.choice([b" meta", b""]), "range"
     if r < 0.86:
@@ -479,6 +515,9 @@ class Proto(Family):
                     return ("response-without-header-line", f"response {fut} although the stream has no CRLF: {data[:60]!r}")
                 if data[:2].isdigit() and data[:2].isascii() and int(data[:2]) != st and data[2:3] in (b" ", b"\r"):
                     return ("status-mismatch", f"status {st} but the header line starts with {data[:3]!r}")
+                v = malformed_header_verdict("", fut, data)
+                if v:
+                    return v
                 if body is not None:
                     raw = data[i + 2:]
                     meta = bytes.fromhex(meta_hex).decode("utf-8", "surrogatepass")
@@ -622,6 +661,10 @@ class Session(Family):
             st, body = res[1], res[3]
             if not (10 <= st <= 69) or ((body is not None) != (20 <= st <= 29)):
                 return ("bad-response", f"{res}")
+            # whatever part of the stream arrived before the call ended: a response needs a header line with a status
+            v = malformed_header_verdict(f"{case['op']} through GeminiClient (segments cut at {case['cuts']}, server ends with {case['end']}): ", res, build(case["stream"]))
+            if v:
+                return v
         return None
 
     def key(self, case, obs):
@@ -658,7 +701,7 @@ def want_of(data: bytes, dt: bool):
     return st, meta, canon_body(raw)
 
 
-def judge_one(who: str, res, want, nbody: int):
+def judge_one(who: str, res, want, nbody: int, data=None):
     """clauses of the property on the response of one call; `want` from want_of (the complete stream of ITS server)"""
     if res[0] != "resp":
         return None
@@ -666,7 +709,8 @@ def judge_one(who: str, res, want, nbody: int):
     if not (10 <= st <= 69) or ((body is not None) != (20 <= st <= 29)):
         return ("bad-response", f"{who}: {res}")
     if want is None:
-        return None         # grey: a stream the protocol-object family judges (header corruptions)
+        # grey (range, META, charset corruptions: the protocol-object family judges them) - except that a response needs a status
+        return malformed_header_verdict(who + ": ", res, data) if data is not None else None
     if st != want[0]:
         return ("status-mismatch", f"{who}: status {st}, its server sent status {want[0]}")
     if body is not None and body != want[2]:
@@ -837,7 +881,7 @@ class Overlap(Family):
                 return ("late-after-close", f"{who}: its server closed at t={r['start'] + r['connect_delay'] + span}, the call returned at t={o['t1']}")
             i = data.find(CRLF)
             want = want_of(data, case["dt"] if r["op"] == "get" else True)
-            v = judge_one(who, res, want, len(data) - i - 2 if i >= 0 else 0)
+            v = judge_one(who, res, want, len(data) - i - 2 if i >= 0 else 0, data)
             if v is None and res[0] == "err" and r["cls"] == "page" and r["end"] == "close" and want is not None:
                 # a complete well-formed page, closed cleanly, within cap and timeout: there is no problem an exception could name
                 v = ("error-without-cause", f"{who}: its server sent a complete well-formed response ({len(data)} bytes, status {want[0]}) and closed cleanly, the call raised {res[1]}")
@@ -912,7 +956,8 @@ class Live(Family):
             return b"20 text/plain; charset=klingon-8\r\n" + body, "close", "err"
         if k == "odd-codec":
             return b"20 text/plain; charset=" + rnd.choice([b"undefined", b"idna", b"punycode"]) + b"\r\nxn--a..b", "close", "err"
-        return rnd.choice([b"2x text/plain\r\n", b"99 nope\r\n", b"+20 text/plain\r\n", b"20\r\n"]) + body[:50], "wait", "err"
+        return rnd.choice([b"2x text/plain\r\n", b"99 nope\r\n", b"+20 text/plain\r\n", b"20\r\n", b"20\n text/plain\r\n", b"51\n\r\n", b"\t20 text/plain\r\n",
+                           b"20\x0c text/plain\r\n"]) + body[:50], "wait", "err"
 
     def impl(self, case):
         from nauyaca.client.session import GeminiClient
@@ -977,6 +1022,9 @@ class Live(Family):
         if res[0] == "resp":
             if not (10 <= res[1] <= 69) or ((res[3] is not None) != (20 <= res[1] <= 29)):
                 return ("bad-response", f"{res}")
+            v = malformed_header_verdict(f"{case['kind']} ({case['op']} through GeminiClient over loopback TLS, sent in {case['nchunks']} pieces): ", res, self.plan(case)[0])
+            if v:
+                return v
             if res[3] is not None and res[3] != obs["want_body"]:
                 return ("body-mismatch", f"{case['kind']}: body {res[3]} is not what the server sent after the first CRLF ({obs['want_body']})")
             if case["kind"] == "cap":
@@ -1109,7 +1157,7 @@ class LiveOverlap(Family):
                 continue            # a reset may or may not overtake the data already sent: a response or an error, C13 proto/live judge it
             i = data.find(CRLF)
             want = want_of(data, True)
-            v = judge_one(who, res, want, len(data) - i - 2)
+            v = judge_one(who, res, want, len(data) - i - 2, data)
             if v is None and res[0] == "err" and fin == "close" and want is not None:
                 # a complete well-formed response, closed cleanly, within cap and timeout: there is no problem an exception could name
                 v = ("error-without-cause", f"{who}: its server sent a complete well-formed response ({len(data)} bytes, status {want[0]}) and closed cleanly, the call raised {res[1]}: {res[2]}")
